@@ -141,6 +141,34 @@ func runC20(c *runCfg) error {
 			}
 		}
 	}
+	// a statement name prepared again with a query of another placeholder count (no Close in between): Describe
+	// announces the count of the query prepared last; named and unnamed; declared with ParseParameters itself
+	{
+		qs := []string{"select 1", "select $1", "select $2, $1", "? ? ? ? ?", "select $7"}
+		var entries []parseEntry
+		for qi, q := range qs {
+			n, _, _ := ppObserve([]byte(q))
+			if n < 0 {
+				n = 0
+			}
+			entries = append(entries, parseEntry{query: []byte(q), stmts: []stmtT{{id: 70 + qi, cols: textCols(1), poids: make([]int, n), prog: []opT{{kind: "complete", tag: []byte("OK")}}, ret: "nil"}}})
+		}
+		cfg := cfgT{limit: 0, auth: "none", term: "none", ppDeclare: true, parse: entries}
+		k := 0
+		for a := range qs {
+			for b := range qs {
+				if a == b {
+					continue
+				}
+				for _, nm := range [][]byte{[]byte("users"), nil} {
+					msgs := [][]byte{mParse(nm, []byte(qs[a]), 0), mDescribe('S', nm), mParse(nm, []byte(qs[b]), 0), mDescribe('S', nm), mSync(),
+						mClose('S', nm), mParse(nm, []byte(qs[a]), 0), mDescribe('S', nm), mSync()}
+					emitSession(c, lockCase(820000+k, "reprepare", cfg, stdStartup, msgs))
+					k++
+				}
+			}
+		}
+	}
 	// exhaustive: all strings of length <= L over a 6 letter alphabet
 	alpha := []byte("$?019a")
 	L := 5
